@@ -1590,7 +1590,7 @@ void EvalStrExpression(tStrComp const* pExpr, TempResult* pErg) {
             }
             if (TReloc) {
                 WrStrErrorPos(ErrNum_NoRelocs, &InArgs[cnt]);
-                FreeRelocs(&TReloc);
+                FreeRelocs(&InVals[cnt].Relocs);
                 LEAVE;
             }
             if (zp) {
